@@ -348,4 +348,8 @@ theorem source_reader_tie (p pre n1 n2 : Bytes) (off : Nat) :
     Tr.Reader.raw_names_eq_ignore_case n1 n2 = .ok (rawNamesEqIgnoreCase n1 n2) :=
   Tie.reader_tie p pre n1 n2 off
 
+/-- the text form of a name (`Compress::raw_name_to_str`, which `name()` lower-cases): translated source = model -/
+theorem source_name_text (p : Bytes) (off : Nat) : Tr.Reader.raw_name_to_str p off = rawNameToStr p off :=
+  Tie.raw_name_to_str_eq p off
+
 end Dns.C03
